@@ -21,8 +21,15 @@ ENGINE["C34"] = "chan"
 ENGINE["C42"] = "rt"
 ENGINE["C40"] = "gen"
 ENGINE["C41"] = "gen"
-# properties with an additional end-to-end half in the simulation
-EXTRA = {"C11": "sim"}
+# properties with additional halves run by other engines: (engine, evidence suffix, label). The halves are merged
+# into one evidence file; the property is violated if any half reports a violation.
+EXTRA = {"C11": [("sim", "e2e", "END-TO-END HALF (simulation)")]}
+try:
+    import json as _json
+    for _pid, _lst in _json.load(open(os.path.join(os.path.dirname(os.path.abspath(__file__)), "tools", "extra_halves.json"))).items():
+        EXTRA.setdefault(_pid, []).extend(tuple(x) for x in _lst)
+except FileNotFoundError:
+    pass
 
 
 def main():
@@ -45,41 +52,52 @@ def main():
         print(f"INCONCLUSIVE: engine killed by signal {-r.returncode}", file=sys.stderr)
         return 2
     rc = r.returncode
-    # second engine contributing an end-to-end half to the same property (not for replays: a replay
-    # file belongs to the engine that wrote it; try the second engine if the first cannot load it)
-    extra = EXTRA.get(pid)
-    if extra and not rest:
-        b2 = subprocess.run(["cargo", "build", "--release", "-q", "-p", extra], cwd=ROOT, env=env,
-                            stdout=subprocess.PIPE, stderr=subprocess.STDOUT, text=True)
-        if b2.returncode != 0:
-            print(b2.stdout[-4000:])
-            return max(rc, 2)
-        env2 = dict(env, VERIF_EVIDENCE_SUFFIX="e2e")
-        r2 = subprocess.run([os.path.join(TARGET, "release", extra), pid, tier], cwd=ROOT, env=env2)
-        rc2 = 2 if r2.returncode < 0 else r2.returncode
-        main_p = os.path.join(ROOT, "evidence", f"{pid}.json")
-        e2e_p = os.path.join(ROOT, "evidence", f"{pid}.e2e.json")
-        try:
-            import json
-            m = json.load(open(main_p))
-            e = json.load(open(e2e_p))
-            m["coverage"]["e2e_simulation"] = e["coverage"]
-            m["coverage"]["evaluations"] = m["coverage"].get("evaluations", 0) + e["coverage"].get("evaluations", 0)
-            m["coverage"]["distinct_nontrivial"] = m["coverage"].get("distinct_nontrivial", 0) + e["coverage"].get("distinct_nontrivial", 0)
-            m["coverage"]["rule"] = m["coverage"].get("rule", "") + " || END-TO-END HALF (simulation): " + e["coverage"].get("rule", "")
-            m["wall_s"] = m.get("wall_s", 0) + e.get("wall_s", 0)
-            m["violations"] = m.get("violations", 0) + e.get("violations", 0)
-            json.dump(m, open(main_p, "w"), indent=1)
-            os.remove(e2e_p)
-        except Exception as ex:
-            print(f"INCONCLUSIVE: could not merge evidence: {ex}", file=sys.stderr)
-            return max(rc, rc2, 2)
-        if rc == 1 or rc2 == 1:
-            return 1
-        return max(rc, rc2)
-    if extra and rest and rc == 2:
-        r2 = subprocess.run([os.path.join(TARGET, "release", extra), pid, tier] + rest, cwd=ROOT, env=env)
-        return 2 if r2.returncode < 0 else r2.returncode
+    # further engines contributing a half to the same property (not for replays: a replay file belongs to
+    # the engine that wrote it; the other engines are tried if the first cannot load it)
+    extras = EXTRA.get(pid, [])
+    if extras and not rest:
+        import json
+        for (extra, suffix, label) in extras:
+            b2 = subprocess.run(["cargo", "build", "--release", "-q", "-p", extra], cwd=ROOT, env=env,
+                                stdout=subprocess.PIPE, stderr=subprocess.STDOUT, text=True)
+            if b2.returncode != 0:
+                print(b2.stdout[-4000:])
+                print(f"INCONCLUSIVE: build of engine {extra} failed", file=sys.stderr)
+                rc = rc if rc == 1 else 2
+                continue
+            env2 = dict(env, VERIF_EVIDENCE_SUFFIX=suffix)
+            r2 = subprocess.run([os.path.join(TARGET, "release", extra), pid, tier], cwd=ROOT, env=env2)
+            rc2 = 2 if r2.returncode < 0 else r2.returncode
+            evroot = env["VERIF_ROOT"]
+            main_p = os.path.join(evroot, "evidence", f"{pid}.json")
+            half_p = os.path.join(evroot, "evidence", f"{pid}.{suffix}.json")
+            try:
+                m = json.load(open(main_p))
+                e = json.load(open(half_p))
+                key = "e2e_simulation" if suffix == "e2e" else f"{suffix}_half"
+                m["coverage"][key] = e["coverage"]
+                m["coverage"]["evaluations"] = m["coverage"].get("evaluations", 0) + e["coverage"].get("evaluations", 0)
+                m["coverage"]["distinct_nontrivial"] = m["coverage"].get("distinct_nontrivial", 0) + e["coverage"].get("distinct_nontrivial", 0)
+                m["coverage"]["rule"] = m["coverage"].get("rule", "") + f" || {label}: " + e["coverage"].get("rule", "")
+                m["wall_s"] = m.get("wall_s", 0) + e.get("wall_s", 0)
+                m["violations"] = m.get("violations", 0) + e.get("violations", 0)
+                json.dump(m, open(main_p, "w"), indent=1)
+                os.remove(half_p)
+            except Exception as ex:
+                print(f"INCONCLUSIVE: could not merge evidence: {ex}", file=sys.stderr)
+                rc2 = max(rc2, 2) if rc2 != 1 else 1
+            if rc == 1 or rc2 == 1:
+                rc = 1
+            else:
+                rc = max(rc, rc2)
+        return rc
+    if extras and rest and rc == 2:
+        for (extra, suffix, label) in extras:
+            r2 = subprocess.run([os.path.join(TARGET, "release", extra), pid, tier] + rest, cwd=ROOT, env=env)
+            rc = 2 if r2.returncode < 0 else r2.returncode
+            if rc != 2:
+                break
+        return rc
     return rc
 
 
